@@ -22,7 +22,15 @@ RULE = ("one evaluation = one observed outcome (scale+dimension+offset of a Unit
         "distinct cell = (oracle, kind of the last edit touching the probe's symbols, probe class, string constructed before that "
         "edit or not, expected known/unknown). Exhaustive part: all edit sequences of length 3 (thorough: 4) over 2 symbols x "
         "{add A, add B, modify float, modify quantity, remove, define_unit} x probe-round masks; random part: histories of up to "
-        "40 (thorough 60) steps over 2-3 live registries of several provenances, 4 symbols incl. one built-in (pc)")
+        "40 (thorough 60) steps over 2-3 live registries of several provenances, 4 symbols incl. one built-in (pc). "
+        "A registry may be held through several OBJECTS: every step (warm-up probe, edit, probe) is addressed to one handle; handles "
+        "obtained the shallow way (copy.copy(reg), Unit.copy(), the registry of q.in_mks()/in_cgs()/in_base()/convert_to_mks() of "
+        "base-unit data, get_base_equivalent()) share one table and one model, so an evaluation through handle B after an edit through "
+        "handle A is judged against the table's current contents like any other (cells add: how the handle was obtained, "
+        "edit-via/probe-via role, built through this handle before the edit or not); independent copies (deepcopy, pickle, JSON, "
+        "Unit.copy(deep=True), deepcopy/pickle of a quantity) get their own model and must not follow the source's edits nor the "
+        "source theirs. Enumerated part: 15 ways of obtaining the second object x every edit op of the catalogue x base state x "
+        "(first editor, which handles were warmed, handle taken before/after the symbol existed), two edits in opposite directions")
 ASSUMPTIONS = (
     "trusted base: ref/regmodel.py (dict model), ref/uexpr.py (expression evaluator), ref/defs.py values of the exactly defined "
     "symbols used as companions (m, s, g, kg, cm, km, K, rad, A, cd; pc within its 1e-7 class) and ref/names.py spellings",
@@ -46,6 +54,20 @@ ASSUMPTIONS = (
     "must give the SI values recorded at creation, and conversion to the creating string under the current contents must "
     "combine the old scale with the new one (or raise when the string is now unknown / of another dimension)",
     "watchdog kills and a dead cold process are never verdicts (counted, INCONCLUSIVE when the cold oracle never answered)",
+    "'that registry' is the symbol table, not the Python object: a shallow copy of a registry (copy.copy), the registry of "
+    "Unit.copy() and of the result of in_mks/in_cgs/in_base/convert_to_mks/get_base_equivalent on data already in base units are "
+    "further handles on the same table (that is what a shallow copy of an object holding a dict is, and conversions of data that are "
+    "NOT in base units hand back the very registry object); an edit through any handle must be seen through every handle, and a "
+    "result unit bound to any handle on the operands' table counts as bound to the operands' registry",
+    "deepcopy / pickle / to_json+from_json of a registry, Unit.copy(deep=True), deepcopy / pickle of a quantity give independent "
+    "tables: judged against the model as it was when the copy was taken (plus the fill-in of missing default symbols that "
+    "from_json and array unpickling apply, C11's subject) and their own later edits",
+    "which handles share a table is decided by this list of ways, not by looking at the library's objects (an unexpected sharing "
+    "state is noted, and the probes then fail on their own)",
+    "the memoised unit_system_id is judged through every handle after every edit against a new registry object holding the same "
+    "table; a stale id through a handle other than the editing one is keyed once per direction, not per edit kind (one mechanism)",
+    "the carrier quantity that came with a handle (e.g. the result of q.in_mks()) is in units the alphabet never edits (m, cm, kg); "
+    "carrier.to(<probed string>) must give value x carrier scale / current scale of the string, or raise when the dimensions differ",
 )
 MIN_EVALS = 5000
 TIMEOUT = 1500
@@ -147,8 +169,16 @@ def exc(e):
     return ["exc", type(e).__name__]
 
 
-def observe(unyt, reg, uprobes, aspecs, keep=False, rnames=()):
-    """execute the probe set against a registry; pure observation.  Returns (outcomes dict, retained objects)."""
+def same_table(r1, r2):
+    """harness bookkeeping, never a verdict: two registry objects are handles on one symbol table (the object itself or a
+    shallow copy of it; unyt hands out shallow copies from Unit.copy() and the base-unit conversions)"""
+    return r1 is r2 or getattr(r1, "lut", 1) is getattr(r2, "lut", 2)
+
+
+def observe(unyt, reg, uprobes, aspecs, keep=False, rnames=(), carrier=None):
+    """execute the probe set against a registry; pure observation.  Returns (outcomes dict, retained objects).
+    carrier: a quantity in never-edited units that was obtained together with the handle `reg` (e.g. the result of
+    q.in_mks()); it is converted to every probed array unit (the string is resolved through the carrier's own registry)"""
     out = {}
     objs = []
     Unit = unyt.Unit
@@ -183,11 +213,13 @@ def observe(unyt, reg, uprobes, aspecs, keep=False, rnames=()):
                 vals = np.atleast_1d(np.asarray(getattr(x, "d", x), dtype="f8")).tolist()
                 uu = getattr(x, "units", None)
                 out[tag + name] = ["ok", vals, None if uu is None else float(uu.base_value), None if uu is None else dimstr(uu.dimensions),
-                                   None if uu is None else (uu.registry is reg)]
+                                   None if uu is None else same_table(uu.registry, reg)]
                 return x
             except Exception as e:
                 out[tag + name] = exc(e)
                 return None
+        if carrier is not None:
+            put("carrier-to", lambda: carrier.to(u))
         a = put("create", lambda: unyt.unyt_array(np.array([1.0, 2.5]), u, registry=reg))
         put("quantity", lambda: unyt.unyt_quantity(3.0, u, registry=reg))
         if a is None:
@@ -298,23 +330,88 @@ def cold_handler(req):
 
 
 # ----------------------------------------------------------------------------------------------------------- session
+class Table:
+    """what belongs to one symbol TABLE (not to one registry object): every handle on the table - the registry itself,
+    shallow copies of it, the registries of Unit.copy() / base-unit conversions - shares one instance"""
+
+    def __init__(self, model):
+        self.model = model
+        self.last_edit = {}          # sym -> (edit kind, model.version after it, Session through which it was made)
+        self.pred_hist = {}          # unit string -> list of earlier predictions
+        self.last_kind = "none"      # kind of the most recent successful edit of this table
+        self.dead = False
+        self.handles = []            # Sessions (one per registry object) onto this table
+        self.kin = []                # Sessions on OTHER tables related by independent copying (deepcopy, pickle, JSON)
+
+
+def _shared(name):
+    return property(lambda self: getattr(self.tab, name), lambda self, v: setattr(self.tab, name, v))
+
+
 class Session:
-    """one live registry + its model + the bookkeeping the keys and cells are built from"""
+    """one live registry OBJECT (a handle on a table) + the table's model + the bookkeeping the keys and cells are built from"""
+    model, last_edit, pred_hist, last_kind, dead, kin = (_shared(n) for n in ("model", "last_edit", "pred_hist", "last_kind", "dead", "kin"))
 
     def __init__(self, unyt, rec, reg, model, syms, tier, provenance, srv):
-        self.unyt, self.rec, self.reg, self.model = unyt, rec, reg, model
+        self.tab = Table(model)
+        self.tab.handles.append(self)
+        self.unyt, self.rec, self.reg = unyt, rec, reg
         self.syms, self.tier, self.prov, self.srv = syms, tier, provenance, srv
         self.uprobes = unit_probes(syms, tier)
         self.aunits = array_units(syms)
-        self.last_edit = {}          # sym -> (edit kind, model.version after it)
-        self.constructed = {}        # probe key -> model.version at its last construction
-        self.pred_hist = {}          # unit string -> list of earlier predictions
+        self.constructed = {}        # probe key -> model.version at its last construction THROUGH THIS HANDLE
         self.retained = []           # dicts
-        self.last_kind = "none"      # kind of the most recent successful edit of this registry
         self.full_defaults = not provenance.startswith("empty+si")
-        self.multi = False           # more than one live registry in this history
+        self.multi = False           # more than one live table in this history
         self.idcheck_always = False
-        self.dead = False
+        self.role = "original"       # "copy" for a handle obtained from another handle
+        self.how = "new"             # how the handle was obtained
+        self.carrier = None          # (quantity, value, unit string) obtained together with the handle
+
+    # ---- several handles on one table
+    def join(self, other, how):
+        """this session is one more handle on other's table"""
+        self.tab = other.tab
+        self.tab.handles.append(self)
+        self.role, self.how = "copy", how
+
+    def editor_of(self, symbols):
+        best = (None, -1)
+        for s in symbols:
+            k = self.last_edit.get(s)
+            if k and k[1] > best[1]:
+                best = (k[2], k[1])
+        return best[0]
+
+    def rel(self, symbols):
+        """None, or 'edit-via-<role>:probe-via-<role>' when the last edit touching the symbols was made through ANOTHER handle
+        on this table"""
+        e = self.editor_of(symbols)
+        if e is None or e is self or e not in self.tab.handles:
+            return None
+        return f"edit-via-{e.role}:probe-via-{self.role}"
+
+    def sfx(self, symbols):
+        r = self.rel(symbols)
+        return "" if r is None else ":shared-table:" + r
+
+    def cross(self, symbols, what, pclass, warm, decisive=True):
+        """coverage of the several-handles class: one judged observation through a handle other than the editing one"""
+        r = self.rel(symbols)
+        if r is None:
+            if len(self.tab.handles) > 1:
+                self.rec.count("evals_shared_same_handle")
+            return
+        rec = self.rec
+        rec.count("evals_shared_cross")
+        rec.count("evals_shared_cross:" + r)
+        if warm == "re":
+            rec.count("evals_shared_cross_warm")      # built through THIS handle before the edit made through the other one
+            rec.count("evals_shared_cross_warm:" + r)
+        if self.reg is not self.editor_of(symbols).reg:
+            rec.count("evals_shared_cross_distinct_objects")
+        rec.reach(f"shared|{self.how}|{r}|{what}")
+        rec.ok(("shared", self.how, r, self.edit_of(symbols)[0], what + ":" + pclass, warm))
 
     # ---- what the model expects
     def aspec(self, u, other):
@@ -338,7 +435,7 @@ class Session:
         for s in symbols:
             k = self.last_edit.get(s)
             if k and k[1] > best[1]:
-                best = k
+                best = k[:2]
         return best
 
     # ---- edits
@@ -376,13 +473,19 @@ class Session:
             return
         if w != "ok":
             return
-        self.last_edit[op[1]] = (kind, self.model.version)
+        self.last_edit[op[1]] = (kind, self.model.version, self)
         self.last_kind = kind
+        if len(self.tab.handles) > 1:
+            rec.count("edits_shared_table")
+            rec.count("edits_shared_table:via-" + self.role)
+            rec.count("edits_shared_table:" + kind)
         if self.idcheck_always:
             # (6) memoised content hash, read right after the edit (before any lookup writes a derived entry into the table):
-            # must be the hash a new registry object holding this very table computes
-            self.check_system_id()
-        self.check_retained(kind, op)
+            # must be the hash a new registry object holding this very table computes - through every handle on the table
+            for h in self.tab.handles:
+                h.check_system_id(editor=self)
+        for h in self.tab.handles:      # objects built through any handle before the edit keep the value they had
+            h.check_retained(kind, op)
 
     # ---- probes
     def probe(self, subset=None, fresh=False, cold=False, arrays=True):
@@ -403,8 +506,11 @@ class Session:
                     ameta[u] = symbols
         ustrings = [p[0] for p in ups]
         rnames = [p[0] for p in ups if p[1] in ("atomic", "prefixed")]
-        obs, objs = observe(unyt, self.reg, ustrings, aspecs, keep=True, rnames=rnames)
+        obs, objs = observe(unyt, self.reg, ustrings, aspecs, keep=True, rnames=rnames, carrier=self.carrier and self.carrier[0])
         rec.count("probe_rounds")
+        if len(self.tab.handles) > 1:
+            rec.count("probe_rounds_shared_table")
+            rec.count("probe_rounds_shared_table:via-" + self.role)
         # (1) model oracle
         for (s, pclass, symbols) in ups:
             self.judge_unit(s, pclass, symbols, obs["U|" + s])
@@ -431,9 +537,28 @@ class Session:
             self.constructed[k] = v
         self.retain(objs, aspecs)
 
-    def check_system_id(self):
+    def check_system_id(self, editor=None):
         unyt, rec = self.unyt, self.rec
         rec.count("evals_system_id")
+        if editor is not None and editor is not self:
+            r = f"edit-via-{editor.role}:probe-via-{self.role}"
+            rec.count("evals_shared_system_id")
+            try:
+                warm = self.reg.unit_system_id
+                cold = unyt.UnitRegistry(lut=dict(self.reg.lut), add_default_symbols=False).unit_system_id
+            except Exception as e:
+                rec.note("unit_system_id-raised:" + type(e).__name__)
+                return
+            if warm == cold:
+                rec.ok(("shared", self.how, r, self.last_kind, "system-id"))
+            else:
+                # one mechanism whatever the edit kind (the memo lives in the registry object, the table does not)
+                rec.violation(f"C12:stale-unit_system_id:shared-table:{r}",
+                              f"after {self.model.log[-1:]} made through another handle on the same table ({editor.how} / {self.how}), "
+                              f"registry.unit_system_id of this handle is still {warm}; a new registry object holding exactly this table "
+                              f"answers {cold} (Unit.__hash__ is built on it)",
+                              {"prov": self.prov, "how": self.how, "editor": editor.how, "log": self.model.log[-12:]})
+            return
         try:
             warm = self.reg.unit_system_id
             cold = unyt.UnitRegistry(lut=dict(self.reg.lut), add_default_symbols=False).unit_system_id
@@ -457,9 +582,17 @@ class Session:
         exp = model.outcome(s)
         kind, ver = self.edit_of(symbols)
         hist = self.pred_hist.setdefault(s, [])
-        cell = ("model", kind, pclass, self.warmth("U|" + s, ver), exp[0])
+        warm = self.warmth("U|" + s, ver)
+        cell = ("model", kind, pclass, warm, exp[0])
         rec.reach(kind + "|" + pclass)
         rec.count("evals_model_unit")
+        decisive = None
+        for k_ in self.kin:          # independent copies: this table must not follow the other table's edits
+            if k_.tab is not self.tab and k_.model.outcome(s)[:3] != exp[:3]:
+                decisive = k_
+                rec.count("evals_independent_decisive")
+                rec.reach(f"independent|{self.how if self.how != 'new' else k_.how}|{pclass}")
+                break
         case = {"string": s, "observed": o, "expected": [exp[0]] + ([exp[1], dimlist(exp[2])] if exp[0] == "ok" else []),
                 "last_edit": kind, "prov": self.prov, "log": model.log[-12:]}
         bad = None
@@ -483,10 +616,17 @@ class Session:
                 r = model.lookup(s)
                 if r is not None and not feq(o[3], r.offset, 1e-12):
                     bad = ("offset", f"Unit({s!r}).base_offset = {o[3]!r}; current entry has {r.offset!r}")
+        if bad and decisive is not None:
+            eo = decisive.model.outcome(s)
+            if (eo[0] == "unknown" and o[0] != "ok") or (eo[0] == "ok" and o[0] == "ok" and o[2] == dimlist(eo[2]) and feq(o[1], eo[1], eo[3] + 1e-12)):
+                bad = ("follows-independent-copy", bad[1] + f"; that is what the table of the independent copy ({decisive.how}/{self.how}) holds after {decisive.model.log[-2:]}")
         if bad:
-            rec.violation(f"C12:{kind}:{bad[0]}:{pclass}", bad[1] + f" (after {kind}; history {model.log[-6:]})", case)
+            rec.violation(f"C12:{kind}:{bad[0]}:{pclass}" + self.sfx(symbols), bad[1] + f" (after {kind}; history {model.log[-6:]}; handle {self.how})", dict(case, how=self.how))
         else:
             rec.ok(cell)
+            self.cross(symbols, "unit", pclass, warm)
+            if decisive is not None:
+                rec.ok(("independent", self.how, decisive.how, kind, pclass))
         if not hist or hist[-1] != exp:
             hist.append(exp)
 
@@ -500,7 +640,7 @@ class Session:
         case = {"name": s, "contains": oc, "getitem": og, "expected": None if r is None else [r.scale, dimlist(r.dim)], "prov": self.prov,
                 "log": model.log[-12:]}
         if oc != ["ok", r is not None]:
-            rec.violation(f"C12:{kind}:registry-contains:{pclass}", f"({s!r} in registry) -> {oc}; current contents say {r is not None} "
+            rec.violation(f"C12:{kind}:registry-contains:{pclass}" + self.sfx(symbols), f"({s!r} in registry) -> {oc}; current contents say {r is not None} "
                           f"(after {kind}; history {model.log[-6:]})", case)
         else:
             rec.ok(("model", kind, "contains:" + pclass, r is not None))
@@ -512,8 +652,9 @@ class Session:
             what = "unknown" if og[0] != "ok" else "stale-or-wrong"
         if good:
             rec.ok(("model", kind, "getitem:" + pclass, r is not None))
+            self.cross(symbols, "mapping", pclass, self.warmth("R|getitem|" + s, ver))
         else:
-            rec.violation(f"C12:{kind}:registry-getitem:{what}:{pclass}", f"registry[{s!r}] -> {og}; current contents give "
+            rec.violation(f"C12:{kind}:registry-getitem:{what}:{pclass}" + self.sfx(symbols), f"registry[{s!r}] -> {og}; current contents give "
                           f"{'no such symbol' if r is None else (r.scale, dims.show(r.dim), r.offset)} (after {kind}; history {model.log[-6:]})", case)
 
     def expected_array(self, sp):
@@ -522,11 +663,15 @@ class Session:
         o = m.outcome(sp["u"])
         E = {}
         if o[0] != "ok":
-            for n in ("create", "quantity"):
+            for n in ("create", "quantity") + (("carrier-to",) if self.carrier else ()):
                 E[n] = "raise"
             return E
         _, s, d, tol = o
         v = np.array([1.0, 2.5])
+        if self.carrier:
+            oc = m.outcome(self.carrier[2])
+            if oc[0] == "ok":          # (the carrier's own unit is never edited by the alphabet; not judged should it vanish)
+                E["carrier-to"] = (np.array([self.carrier[1] * oc[1]]), d, s, tol + oc[3]) if oc[2] == d else "raise"
         ob, ob2 = m.outcome(sp["base"]), m.outcome(sp["base2"])
         E["create"] = (v * s, d, s, tol)
         E["quantity"] = (np.array([3.0]) * s, d, s, tol)
@@ -599,7 +744,8 @@ class Session:
                 continue
             rec.reach(kind + "|array:" + name)
             rec.count("evals_model_array")
-            cell = ("model", kind, "array:" + name, self.warmth(key, ver), "raise" if e == "raise" else "ok")
+            warm = self.warmth(key, ver)
+            cell = ("model", kind, "array:" + name, warm, "raise" if e == "raise" else "ok")
             case = {"unit": u, "probe": name, "spec": sp, "observed": o, "last_edit": kind, "prov": self.prov, "log": model.log[-12:]}
             if o[0] == "ok" and o[4] is False and name in RULE_PROBES:
                 # mechanism of its own: the result unit belongs to a registry the operands do not belong to; every later
@@ -613,6 +759,7 @@ class Session:
                 failed.append((name, e, bad, case))
             else:
                 rec.ok(cell)
+                self.cross(symbols, "array", name, warm)
         if not failed:
             return
         # (only in histories with several live registries: single-registry histories carry a unique mark, nothing foreign can
@@ -622,7 +769,9 @@ class Session:
         # failure that disappears was caused by an entry cached for *another* registry of equal contents (known mechanism,
         # keyed per rule); a failure that stays is reported under its own key.
         redo = {}
-        if self.multi and any(n in RULE_OF for n, _, _, _ in failed):
+        # (not for a table with several handles: the extra add() through this handle would also cure a memo that the edit
+        # made through the other handle failed to reach, and file that under the foreign-cache key)
+        if self.multi and len(self.tab.handles) == 1 and any(n in RULE_OF for n, _, _, _ in failed):
             add_mark(self.unyt, self.reg, model, next_mark("c12probe"))
             rec.count("foreign_cache_diagnoses")
             redo, _ = observe(self.unyt, self.reg, [], [sp])
@@ -633,7 +782,8 @@ class Session:
                               f"{bad[1]}; the same call is right once this registry's table differs from every other registry's "
                               f"(cached unit rule of another registry with equal contents answered)", case)
             else:
-                rec.violation(f"C12:{kind}:array-{bad[0]}:{name}", bad[1] + f" (after {kind}; history {model.log[-6:]})", case)
+                rec.violation(f"C12:{kind}:array-{bad[0]}:{name}" + self.sfx(symbols), bad[1] + f" (after {kind}; history {model.log[-6:]}; handle {self.how})",
+                              dict(case, how=self.how))
 
     def diff(self, obs, other, which, ups, ameta):
         rec = self.rec
@@ -663,9 +813,10 @@ class Session:
                 continue
             if same_obs(o, o2):
                 rec.ok((which, kind, pclass, self.warmth(k, ver), o[0]))
+                self.cross(symbols, which, pclass, self.warmth(k, ver))
             else:
                 what = "exception-class" if (o[0] == "exc" and o2[0] == "exc") else ("raises-only-" + ("warm" if o[0] == "exc" else which) if o[0] != o2[0] else "result")
-                rec.violation(f"C12:{kind}:warm-vs-{which}:{what}:{pclass}",
+                rec.violation(f"C12:{kind}:warm-vs-{which}:{what}:{pclass}" + self.sfx(symbols),
                               f"{k}: after the history -> {o}; {which} registry with the same contents -> {o2} (history {self.model.log[-6:]})",
                               {"probe": k, "warm": o, which: o2, "prov": self.prov, "log": self.model.log[-12:]})
 
@@ -711,7 +862,7 @@ class Session:
             else:
                 u = s if kind == "array" else s[1:-4]
                 sp = base.get(u)
-                if sp is None or x.units.registry is not self.reg:     # the second case is reported by judge_array
+                if sp is None or not same_table(x.units.registry, self.reg):     # the second case is reported by judge_array
                     continue
                 b = sp["base"] if kind == "array" else sp["base2"]
                 try:
@@ -726,7 +877,11 @@ class Session:
 
     def check_retained(self, kind, op):
         rec, model = self.rec, self.model
+        sf = self.sfx((op[1],))          # non-empty when the edit was made through another handle on this table
         for r in self.retained:
+            if sf:
+                rec.count("evals_shared_retained")
+                rec.reach(f"shared|{self.how}|{sf[14:]}|retained")
             x = r["obj"]
             case = {"retained": r["kind"], "string": r["string"], "created_at_version": r["version"], "op": op, "prov": self.prov,
                     "log": model.log[-12:]}
@@ -735,13 +890,13 @@ class Session:
             if r["kind"] == "unit":
                 now = (float(x.base_value), dimstr(x.dimensions), float(x.base_offset), str(x.expr))
                 if now != r["snap"]:
-                    rec.violation(f"C12:{kind}:retained-changed:unit", f"Unit({r['string']!r}) built before {op} changed from {r['snap']} to {now}", case)
+                    rec.violation(f"C12:{kind}:retained-changed:unit" + sf, f"Unit({r['string']!r}) built before {op} changed from {r['snap']} to {now}", case)
                 else:
                     rec.ok(("retained", kind, "unit", "snapshot"))
                 continue
             now = (np.asarray(x.d).tobytes(), float(x.units.base_value), dimstr(x.units.dimensions), str(x.units.expr))
             if now != r["snap"]:
-                rec.violation(f"C12:{kind}:retained-changed:{r['kind']}", f"array in {r['string']} built before {op} changed: units {r['snap'][1:]} -> {now[1:]}", case)
+                rec.violation(f"C12:{kind}:retained-changed:{r['kind']}" + sf, f"array in {r['string']} built before {op} changed: units {r['snap'][1:]} -> {now[1:]}", case)
                 continue
             rec.ok(("retained", kind, r["kind"], "snapshot"))
             # conversion to SI base units still gives the values it had
@@ -749,11 +904,11 @@ class Session:
             try:
                 got = np.asarray(x.to(r["base"]).d, dtype="f8")
                 if got.shape != np.shape(r["si"]) or not np.all(np.abs(got - np.array(r["si"])) <= 1e-12 * np.abs(np.array(r["si"]))):
-                    rec.violation(f"C12:{kind}:retained-value:{r['kind']}:to-base", f"array in {r['string']} built before {op}: .to({r['base']!r}) was {r['si']}, now {got.tolist()}", case)
+                    rec.violation(f"C12:{kind}:retained-value:{r['kind']}:to-base" + sf, f"array in {r['string']} built before {op}: .to({r['base']!r}) was {r['si']}, now {got.tolist()}", case)
                 else:
                     rec.ok(("retained", kind, r["kind"], "to-base"))
             except Exception as e:
-                rec.violation(f"C12:{kind}:retained-value:{r['kind']}:to-base-raises", f"array in {r['string']} built before {op}: .to({r['base']!r}) now raises {type(e).__name__}: {e}", case)
+                rec.violation(f"C12:{kind}:retained-value:{r['kind']}:to-base-raises" + sf, f"array in {r['string']} built before {op}: .to({r['base']!r}) now raises {type(e).__name__}: {e}", case)
             # conversion to the creating string under the *current* contents
             try:
                 if self.has_offset(model.evaluate(r["string"]).symbols):
@@ -771,14 +926,14 @@ class Session:
             if o[0] == "ok" and bo[0] == "ok" and o[2] == bo[2]:
                 want = np.array(r["si"]) * bo[1] / o[1]
                 if raised:
-                    rec.violation(f"C12:{kind}:retained-to-current:{r['kind']}:raises", f"array built in {r['string']} before {op}: .to({r['string']!r}) raises {raised}; old value / current scale gives {want.tolist()}", case)
+                    rec.violation(f"C12:{kind}:retained-to-current:{r['kind']}:raises" + sf, f"array built in {r['string']} before {op}: .to({r['string']!r}) raises {raised}; old value / current scale gives {want.tolist()}", case)
                 elif not np.all(np.abs(got - want) <= (o[3] + bo[3] + 1e-12) * np.abs(want)):
-                    rec.violation(f"C12:{kind}:retained-to-current:{r['kind']}:value", f"array built in {r['string']} before {op}: .to({r['string']!r}) = {got.tolist()}; old SI value {r['si']} over the current scale {o[1]!r} gives {want.tolist()}", case)
+                    rec.violation(f"C12:{kind}:retained-to-current:{r['kind']}:value" + sf, f"array built in {r['string']} before {op}: .to({r['string']!r}) = {got.tolist()}; old SI value {r['si']} over the current scale {o[1]!r} gives {want.tolist()}", case)
                 else:
                     rec.ok(("retained", kind, r["kind"], "to-current"))
             else:
                 if raised is None:
-                    rec.violation(f"C12:{kind}:retained-to-current:{r['kind']}:not-refused", f"array built in {r['string']} before {op}: .to({r['string']!r}) returned {got.tolist()} although the string is now {'unknown' if o[0] != 'ok' else 'of another dimension'}", case)
+                    rec.violation(f"C12:{kind}:retained-to-current:{r['kind']}:not-refused" + sf, f"array built in {r['string']} before {op}: .to({r['string']!r}) returned {got.tolist()} although the string is now {'unknown' if o[0] != 'ok' else 'of another dimension'}", case)
                 else:
                     rec.ok(("retained", kind, r["kind"], "to-current-refused"))
 
@@ -850,22 +1005,102 @@ def PRISTINE():
     return _PR[0]
 
 
-def clone_session(unyt, sess, how):
+# how a caller comes to hold ANOTHER registry object for a registry it already has.  Interpretation (see ASSUMPTIONS): the
+# shallow ways give one more handle on the SAME table (an edit through any handle is an edit of "that registry"); the deep /
+# serialising ways give an independent table that must not follow later edits of the source, nor the source its edits.
+SHARED_HOWS = ("copy.copy(reg)", "unit.copy", "q.in_mks", "q.in_cgs", "q.in_base", "unit.get_base_equivalent", "q.convert_to_mks",
+               "copy.copy(unit)", "q.in_units")      # (the last two hand back the very same object on the unchanged tree: controls)
+INDEP_HOWS = ("deepcopy", "json", "pickle", "unit.copy(deep)", "deepcopy(q)", "pickle(q)")
+
+
+def make_handle(unyt, reg, how):
+    """-> (registry object, carrier (quantity, value, unit string)); the carrier is the quantity that came with the handle (or
+    one created against it), in units the edit alphabet never touches"""
     import copy, pickle
+    U, Q = unyt.Unit, unyt.unyt_quantity
+
+    def on(r, v=3.0, u="m"):
+        return r, (Q(v, u, registry=r), v, u)
+
+    def of(q, v, u):
+        return q.units.registry, (q, v, u)
+    if how == "copy.copy(reg)":
+        return on(copy.copy(reg))
+    if how == "unit.copy":
+        u = U("m", registry=reg).copy()
+        return u.registry, (Q(3.0, u), 3.0, "m")
+    if how == "copy.copy(unit)":
+        u = copy.copy(U("kg", registry=reg))
+        return u.registry, (Q(3.0, u), 3.0, "kg")
+    if how == "q.in_mks":
+        return of(Q(3.0, "m", registry=reg).in_mks(), 3.0, "m")
+    if how == "q.in_cgs":
+        return of(Q(3.0, "cm", registry=reg).in_cgs(), 3.0, "cm")
+    if how == "q.in_base":
+        return of(Q(3.0, "kg", registry=reg).in_base(), 3.0, "kg")
+    if how == "unit.get_base_equivalent":
+        u = U("kg", registry=reg).get_base_equivalent()
+        return u.registry, (Q(3.0, u), 3.0, "kg")
+    if how == "q.convert_to_mks":
+        q = Q(3.0, "m", registry=reg)
+        q.convert_to_mks()
+        return of(q, 3.0, "m")
+    if how == "q.in_units":
+        return of(Q(3.0, "m", registry=reg).in_units("m"), 3.0, "m")
     if how == "deepcopy":
-        reg = copy.deepcopy(sess.reg)
-    elif how == "json":
-        reg = unyt.UnitRegistry.from_json(sess.reg.to_json())
-    elif how == "pickle":
-        reg = pickle.loads(pickle.dumps(sess.reg))
-    else:
-        raise AssertionError(how)
-    s = Session(unyt, sess.rec, reg, sess.model.copy(), sess.syms, sess.tier, sess.prov + ">" + how, sess.srv)
-    s.last_edit = dict(sess.last_edit)
-    s.last_kind, s.idcheck_always = sess.last_kind, sess.idcheck_always
-    s.pred_hist = {k: list(v) for k, v in sess.pred_hist.items()}
+        return on(copy.deepcopy(reg))
     if how == "json":
-        s.model.fill_defaults()      # documented upgrade path of from_json: default symbols missing from the text are filled in
+        return on(unyt.UnitRegistry.from_json(reg.to_json()))
+    if how == "pickle":
+        return on(pickle.loads(pickle.dumps(reg)), 3.0, "kg")
+    if how == "unit.copy(deep)":
+        u = U("m", registry=reg).copy(deep=True)
+        return u.registry, (Q(3.0, u), 3.0, "m")
+    if how == "deepcopy(q)":
+        return of(copy.deepcopy(Q(3.0, "m", registry=reg)), 3.0, "m")
+    if how == "pickle(q)":
+        return of(pickle.loads(pickle.dumps(Q(3.0, "kg", registry=reg))), 3.0, "kg")
+    raise AssertionError(how)
+
+
+def alias_session(unyt, sess, how):
+    """one more handle on sess's table (shallow ways)"""
+    reg, carrier = make_handle(unyt, sess.reg, how)
+    rec = sess.rec
+    s = Session(unyt, rec, reg, sess.model, sess.syms, sess.tier, sess.prov + ">" + how, sess.srv)
+    s.join(sess, how)
+    s.carrier, s.idcheck_always, s.full_defaults = carrier, sess.idcheck_always, sess.full_defaults
+    rec.count("shared_handles")
+    rec.count("shared_handles:" + how)
+    if any(h.reg is reg for h in s.tab.handles if h is not s):
+        rec.count("shared_handles_same_object")          # nothing new to hold: the history is then an ordinary one
+    else:
+        rec.count("shared_handles_distinct_object")
+        rec.count("shared_handles_distinct_object:" + how)
+    if not same_table(reg, sess.reg):
+        rec.note("shallow-handle-has-its-own-table:" + how)      # recorded, judged by the probes (it must follow the edits)
+    return s
+
+
+def clone_session(unyt, sess, how):
+    """an independent copy (deep / serialising ways): its own table from here on"""
+    reg, carrier = make_handle(unyt, sess.reg, how)
+    s = Session(unyt, sess.rec, reg, sess.model.copy(), sess.syms, sess.tier, sess.prov + ">" + how, sess.srv)
+    s.how = how                  # (role stays "original": it is the first handle on its own table)
+    s.last_edit = dict(sess.last_edit)
+    s.last_kind, s.idcheck_always, s.full_defaults = sess.last_kind, sess.idcheck_always, sess.full_defaults
+    s.pred_hist = {k: list(v) for k, v in sess.pred_hist.items()}
+    if sess.carrier is not None or how not in ("deepcopy", "json", "pickle"):
+        s.carrier = carrier
+    s.kin = list(sess.kin) + [sess]
+    sess.kin.append(s)
+    if same_table(reg, sess.reg):
+        sess.rec.note("independent-copy-shares-the-table:" + how)     # recorded, judged by the probes
+    if how in ("json", "pickle(q)"):
+        # documented upgrade path of from_json: default symbols missing from the text are filled in; an unpickled array goes
+        # through the same table upgrade (_correct_old_unit_registry) - persistence is C11's subject, here only the starting
+        # contents of the copy
+        s.model.fill_defaults()
     if sess.dead:
         s.dead = True                # a copy of a registry that is no longer followed is not followed either
     else:
@@ -902,6 +1137,12 @@ def batches(tier, seed):
     for k in range(0, nrand, per):
         b.append((f"rand/{k}", {"mode": "rand", "ids": list(range(k, k + per)), "seed": seed, "tier": tier,
                                 "maxlen": 40 if tier == "quick" else 60}))
+    for how in SHARED_HOWS + INDEP_HOWS:
+        nh = len(handle_histories(tier, how))
+        per = 48
+        for k in range(0, nh, per):
+            b.append((f"handles/{how}/{k}", {"mode": "handles", "how": how, "lo": k, "hi": min(nh, k + per), "tier": tier,
+                                             "cold_stride": 4 if tier == "quick" else 8}))
     b.append(("shadow", {"mode": "shadow", "tier": tier}))
     b.append(("reuse", {"mode": "reuse", "tier": tier}))
     b.append(("coldcheck", {"mode": "coldcheck", "tier": tier}))
@@ -909,8 +1150,64 @@ def batches(tier, seed):
     return b
 
 
+HANDLE_BASE = {"with": (("add", "foo", 2.0, "L", True, 0.0), ("add", "zed", 0.5, "M", False, 0.0)),
+               "without": (("add", "zed", 0.5, "M", False, 0.0),)}
+HANDLE_WARM = ("other", "both", "none", "units-subset")
+
+
+def handle_histories(tier, how):
+    """enumerated histories over TWO registry objects obtained one from the other by `how` (one table for the shallow ways,
+    two tables for the independent ways):  base edits - [warm strings/conversions through one or both handles] - edit through
+    handle E - probe through the other handle, then through E - second edit through the OTHER handle - final probes through
+    both (model + fresh + cold).  Quick: every (edit op, base state) with two of the 16 (first editor, warm, early handle)
+    variants, both first editors; thorough: all 16 for the ways that give a distinct object on a shared table (4 for the
+    others), wider op catalogue, edits of the second symbol too."""
+    shared = how in SHARED_HOWS
+    ops = list(ops_for("foo", 1 if tier == "quick" else 2))
+    if tier == "thorough":
+        ops += ops_for("zed", 0)
+    variants = list(itertools.product((0, 1), HANDLE_WARM, (False, True)))
+    H, count = [], 0
+    for op in ops:
+        states = ("with", "without") if op[0] == "add" else (("without",) if (op[0] == "def" and op[1] == "foo") else ("with",))
+        for state in states:
+            if tier == "thorough" and how in SHARED_HOWS[:7]:
+                picks = variants
+            elif tier == "thorough":       # controls and independent copies: 4 of the 16
+                picks = [variants[(count * 3 + k) % 8 + 8 * (k % 2)] for k in range(4)]
+            else:
+                picks = [variants[(count * 3) % 8], variants[8 + (count * 5 + 3) % 8]]
+            for (first, warm, early) in picks:
+                prov = PROVENANCES[(count // 2) % len(PROVENANCES)] if count % 3 == 2 else "defaults"
+                E, O = first, 1 - first
+                steps = [("new", prov)]
+                mk = ("alias" if shared else "clone", 0, how)
+                if early:
+                    steps.append(mk)
+                steps += [("edit", 0, b) for b in HANDLE_BASE[state]]
+                if not early:
+                    steps.append(mk)
+                if warm in ("other", "both"):
+                    steps.append(("probe", O, None))
+                if warm == "both":
+                    steps.append(("probe", E, None))
+                if warm == "units-subset":
+                    steps.append(("probe", O, [0, 1, 2, 3, 4]))
+                steps += [("edit", E, op), ("probe", O, None), ("probe", E, None)]
+                # second edit through the other handle: the other direction, with both handles warm
+                m = regmodel.RegModel(defaults=True)
+                for b in HANDLE_BASE[state]:
+                    m.apply(b)
+                if shared:
+                    m.apply(op)
+                steps.append(("edit", O, ("modf", "foo", 7.0) if "foo" in m.contents else ("add", "foo", 4.0, "L", True, 0.0)))
+                H.append(steps)
+                count += 1
+    return H
+
+
 def gen_random_history(r, tier, maxlen):
-    """JSON-able step list: ('new', prov) | ('clone', i, how) | ('edit', i, op) | ('probe', i, subset or None)"""
+    """JSON-able step list: ('new', prov) | ('clone', i, how) | ('alias', i, how) | ('edit', i, op) | ('probe', i, subset or None)"""
     level = 1 if tier == "quick" else 2
     nreg = r.choice((1, 2, 2, 3))
     same = r.random() < 0.6        # registries created alike (equal contents -> equal content hash)
@@ -922,6 +1219,9 @@ def gen_random_history(r, tier, maxlen):
     nprobe = len(unit_probes(syms, tier))
     nau = len(array_units(syms))
     mirror = same and r.random() < 0.5     # apply the same first edits to every registry (keeps contents equal for a while)
+    if r.random() < 0.5:                   # a second handle on the first registry's table from the start
+        steps.append(("alias", 0, r.choice(SHARED_HOWS)))
+        live += 1
     for t in range(n):
         x = r.random()
         i = r.randrange(live)
@@ -943,8 +1243,9 @@ def gen_random_history(r, tier, maxlen):
                     steps.append(("probe", j, sub))
             else:
                 steps.append(("probe", i, sub))
-        elif live < 4:
-            steps.append(("clone", i, r.choice(("deepcopy", "json", "pickle"))))
+        elif live < 5:
+            how = r.choice(SHARED_HOWS[:7] + INDEP_HOWS)
+            steps.append(("alias" if how in SHARED_HOWS else "clone", i, how))
             live += 1
     return steps
 
@@ -953,11 +1254,20 @@ def gen_random_history(r, tier, maxlen):
 def run_steps(unyt, rec, steps, syms, tier, srv, cold_final, idcheck_always=False):
     sessions = []
     mark = next_mark()
-    multi = sum(1 for st in steps if st[0] in ("new", "clone")) > 1
+    multi = sum(1 for st in steps if st[0] in ("new", "clone")) > 1       # tables, not handles
+    carriers = any(st[0] in ("alias", "clone") for st in steps)
     for st in steps:
         if st[0] == "new":
             sessions.append(new_session(unyt, rec, st[1], syms, tier, srv, mark=mark))
             sessions[-1].idcheck_always = idcheck_always
+            if carriers:
+                sessions[-1].carrier = (unyt.unyt_quantity(3.0, "m", registry=sessions[-1].reg), 3.0, "m")
+        elif st[0] == "alias":
+            try:
+                sessions.append(alias_session(unyt, sessions[st[1]], st[2]))
+            except Exception as e:
+                rec.note(f"alias-failed:{st[2]}:{type(e).__name__}")
+                sessions.append(alias_session(unyt, sessions[st[1]], "copy.copy(reg)"))
         elif st[0] == "clone":
             try:
                 sessions.append(clone_session(unyt, sessions[st[1]], st[2]))
@@ -978,6 +1288,8 @@ def run_steps(unyt, rec, steps, syms, tier, srv, cold_final, idcheck_always=Fals
     rec.count("registries", len(sessions))
     if len(sessions) > 1:
         rec.count("multi_registry_histories")
+    if any(len(s.tab.handles) > 1 for s in sessions):
+        rec.count("shared_table_histories")
 
 
 def worker(batch, rec):
@@ -1015,6 +1327,13 @@ def worker(batch, rec):
                 rec.count("random_histories")
                 rec.count("random_steps", len(steps))
             rec.sample({"random_history": steps[:12], "steps": len(steps)})
+        elif mode == "handles":
+            H = handle_histories(tier, p["how"])
+            for n_, steps in enumerate(H[p["lo"]:p["hi"]]):
+                deep = n_ % p["cold_stride"] == 0
+                run_steps(unyt, rec, steps, EXH_SYMS, tier, srv, cold_final=deep, idcheck_always=True)
+                rec.count("handle_histories")
+            rec.sample({"handles": p["how"], "history": steps})
         elif mode == "shadow":
             run_shadow(unyt, rec, tier)
         elif mode == "reuse":
@@ -1219,8 +1538,16 @@ def extra(tier, seed, results):
             c[k] = c.get(k, 0) + v
         reached.update(r.get("reached", []))
     deciding = ("evals_model_unit", "evals_model_array", "evals_model_mapping", "evals_fresh", "evals_cold", "evals_retained", "evals_edit_outcome", "evals_system_id",
-                "evals_shadow", "evals_reuse", "cold_selftest_ok", "multi_registry_histories", "random_histories")
+                "evals_shadow", "evals_reuse", "cold_selftest_ok", "multi_registry_histories", "random_histories",
+                # several handles on one table / independent copies
+                "handle_histories", "shared_table_histories", "shared_handles_distinct_object", "edits_shared_table:via-original",
+                "edits_shared_table:via-copy", "evals_shared_cross", "evals_shared_cross_warm", "evals_shared_cross_distinct_objects",
+                "evals_shared_cross_warm:edit-via-original:probe-via-copy", "evals_shared_cross_warm:edit-via-copy:probe-via-original",
+                "evals_shared_system_id", "evals_shared_retained", "evals_independent_decisive")
     zero = [k for k in deciding if not c.get(k)]
+    zero += ["edits_shared_table:" + k for k in EDIT_KINDS if not c.get("edits_shared_table:" + k)]
+    zero += ["shared_handles:" + h for h in SHARED_HOWS if not c.get("shared_handles:" + h)]
+    zero += ["clones:" + h for h in INDEP_HOWS if not c.get("clones:" + h)]
     for k in EDIT_KINDS:
         if not c.get("edit:" + k):
             zero.append("edit:" + k)
@@ -1233,7 +1560,11 @@ def extra(tier, seed, results):
         | {f"{e}|{p}" for e in ("readd", "modify-float", "modify-quantity", "remove") for p in PCLASSES[5:]} \
         | {f"{e}|mapping:{p}" for e in EDIT_KINDS for p in ("atomic", "prefixed")} \
         | {f"reuse|{e}|{o}" for e in ("readd", "modify-float", "modify-quantity", "remove") for o in REUSE_OP_NAMES} \
-        | {f"clone-{h}|{p}" for h in ("deepcopy", "json", "pickle") for p in PCLASSES} \
+        | {f"clone-{h}|{p}" for h in INDEP_HOWS for p in PCLASSES[:5]} \
+        | {f"clone-{h}|{p}" for h in ("deepcopy", "json", "pickle") for p in PCLASSES[5:]} \
+        | {f"shared|{h}|edit-via-{a}:probe-via-{b}|{w}" for h in SHARED_HOWS[:7] for a, b in (("original", "copy"), ("copy", "original"))
+           for w in ("unit", "mapping", "array", "fresh", "cold", "retained")} \
+        | {f"independent|{h}|{p}" for h in INDEP_HOWS for p in PCLASSES[:5]} \
         | {f"shadow|{h}|{p}" for h in ("add", "define_unit") for p in ("atomic", "compound")}
     return {"sub_monitor_counters": {k: c.get(k, 0) for k in sorted(c)}, "catalogue_size": len(cat),
             "unreached": sorted(cat - reached)}
